@@ -397,7 +397,7 @@ static Result execute(const RunSpec& s, bool keepLog) {
   Config cfg;
   cfg.mem_switch_log2 = (int)simdrv::knob(s, "mem_switch_log2", 255); cfg.sync_switch_log2 = (int)simdrv::knob(s, "sync_switch_log2", 2);
   cfg.rate[K_SEND] = simdrv::knob(s, "send_fault_pct", 0) / 100.0; cfg.rate[K_EPOLL] = simdrv::knob(s, "epoll_fault_pct", 0) / 100.0; cfg.rate[K_CONN] = simdrv::knob(s, "conn_fault_pct", 0) / 100.0; cfg.rate[K_DNS] = simdrv::knob(s, "dns_fault_pct", 0) / 100.0; cfg.rate[K_EINTR] = simdrv::knob(s, "eintr_pct", 0) / 100.0;
-  cfg.step_budget = 4000000; cfg.tail_budget_min = 4000000; cfg.tail_factor = 10; cfg.keep_log = keepLog;
+  cfg.step_budget = 4000000; cfg.tail_budget_min = 8000000; cfg.tail_factor = 10; cfg.dilation_cap_ns = 4000000000LL;   /* longest sleep of any party is 3 s (DNS delay); a tail of 8M steps covers the catch-up of eight 1 ms timers after 4 s */ cfg.keep_log = keepLog;
   setProcessorCount((int)simdrv::knob(s, "nproc", 2));
   static std::vector<Pending> pOwn, pAny; pOwn.clear(); pAny.clear();
   memset((void*)&C, 0, sizeof C); C.spec = &s; C.pendOwn = &pOwn; C.pendAny = &pAny;
